@@ -291,49 +291,64 @@ def authorize (σ : State) (cx : Cx) (owner : AppId) (op : BoxOp) : Except Err U
       let inFamily := o.fba && decide (callerCreator = some o.creator)
       if (op = .read && o.fbr) || inFamily then .ok () else .error .denied
 
+/-- first part of `availableAppBox`: `dirty, ok := cx.available.boxes[ref]`, then the unnamed access of an application created
+    in this group: (dirty, availability with the unnamed slot consumed, newAppAccess) -/
+def availLookup (av : Avail) (owner : AppId) (name : Bytes) : Except Err (Bool × Avail × Bool) :=
+  match aget av.boxes (owner, name) with
+  | some d => .ok (d, av, false)
+  | none =>
+    if owner ∈ av.created then
+      if av.unnamed > 0 then .ok (false, { av with unnamed := av.unnamed - 1 }, true)
+      else .error .boxRef
+    else .error .boxRef
+
+/-- the `switch operation` of `availableAppBox`: (availability, dirty flag, returned-early) -/
+def availOp (av0 : Avail) (dirty0 : Bool) (content : Bytes) (ex : Bool) (op : BoxOp) (createSize : Nat) :
+    Except Err (Avail × Bool × Bool) :=
+  let writeLike : Avail × Bool × Bool :=
+    let writeSize := if ex then content.length else createSize
+    (if dirty0 then av0 else { av0 with dirtyBytes := add64 av0.dirtyBytes writeSize }, true, false)
+  match op with
+  | .create =>
+    if ex then
+      if createSize ≠ content.length then .error .sizeMismatch
+      else .ok (av0, dirty0, true)          -- "Since it exists, we have no dirty work to do": returns before the map write
+    else .ok writeLike
+  | .write => .ok writeLike
+  | .resize =>
+    let a1 := if dirty0 then { av0 with dirtyBytes := sub64 av0.dirtyBytes content.length } else av0
+    .ok ({ a1 with dirtyBytes := add64 a1.dirtyBytes createSize }, true, false)
+  | .delete =>
+    let a1 := if dirty0 then { av0 with dirtyBytes := sub64 av0.dirtyBytes content.length } else av0
+    .ok (a1, false, false)
+  | .read => .ok (av0, dirty0, false)
+
+/-- last part: `cx.available.boxes[ref] = dirty`, then the write-budget check -/
+def availFinish (av1 : Avail) (ref : BoxRef) (dirty1 : Bool) : Except Err Avail :=
+  let av2 := { av1 with boxes := aset av1.boxes ref dirty1 }
+  if av2.dirtyBytes > av2.ioBudget then .error .wBudget else .ok av2
+
 /-- `availableAppBox(appID, name, operation, createSize)` → (availability', contents, exists) -/
 def availableAppBox (σ : State) (av : Avail) (cx : Cx) (owner : AppId) (name : Bytes) (op : BoxOp) (createSize : Nat) :
-    Except Err (Avail × Bytes × Bool) := do
-  if cx.clear then throw .clearBox
-  let ref : BoxRef := (owner, name)
-  -- dirty, ok := cx.available.boxes[ref]
-  let (dirty0, ok0, av0, newAppAccess) : Bool × Bool × Avail × Bool :=
-    match aget av.boxes ref with
-    | some d => (d, true, av, false)
-    | none =>
-      if owner ∈ av.created then
-        if av.unnamed > 0 then (false, true, { av with unnamed := av.unnamed - 1 }, true)
-        else (false, false, av, true)
-      else (false, false, av, false)
-  if !ok0 then throw .boxRef
-  authorize σ cx owner op
-  let (content, exists_) : Bytes × Bool :=
-    if newAppAccess then ([], false)
-    else match aget (σ.boxes owner) name with
-      | some c => (c, true)
-      | none => ([], false)
-  -- the operation
-  let writeLike (av : Avail) : Avail × Bool :=
-    let writeSize := if exists_ then content.length else createSize
-    (if dirty0 then av else { av with dirtyBytes := add64 av.dirtyBytes writeSize }, true)
-  let (av1, dirty1, early) : Avail × Bool × Bool ← (match op with
-    | .create =>
-      if exists_ then
-        if createSize ≠ content.length then .error Err.sizeMismatch
-        else .ok (av0, dirty0, true)          -- "Since it exists, we have no dirty work to do": returns before the map write
-      else let (a, d) := writeLike av0; .ok (a, d, false)
-    | .write => let (a, d) := writeLike av0; .ok (a, d, false)
-    | .resize =>
-      let a1 := if dirty0 then { av0 with dirtyBytes := sub64 av0.dirtyBytes content.length } else av0
-      .ok ({ a1 with dirtyBytes := add64 a1.dirtyBytes createSize }, true, false)
-    | .delete =>
-      let a1 := if dirty0 then { av0 with dirtyBytes := sub64 av0.dirtyBytes content.length } else av0
-      .ok (a1, false, false)
-    | .read => .ok (av0, dirty0, false) : Except Err (Avail × Bool × Bool))
-  if early then return (av1, content, exists_)
-  let av2 := { av1 with boxes := aset av1.boxes ref dirty1 }
-  if av2.dirtyBytes > av2.ioBudget then throw .wBudget
-  return (av2, content, exists_)
+    Except Err (Avail × Bytes × Bool) :=
+  if cx.clear then .error .clearBox else
+  match availLookup av owner name with
+  | .error e => .error e
+  | .ok (dirty0, av0, newAppAccess) =>
+    match authorize σ cx owner op with
+    | .error e => .error e
+    | .ok _ =>
+      -- "If the box is in cx.available, GetBox() is cheap … But if we did a newAppAccess … we skip it."
+      let cur : Option Bytes := if newAppAccess then none else aget (σ.boxes owner) name
+      let content := cur.getD []
+      let ex := cur.isSome
+      match availOp av0 dirty0 content ex op createSize with
+      | .error e => .error e
+      | .ok (av1, dirty1, early) =>
+        if early then .ok (av1, content, ex)
+        else match availFinish av1 (owner, name) dirty1 with
+          | .error e => .error e
+          | .ok av2 => .ok (av2, content, ex)
 
 /-! ## effects (one opcode each) -/
 
